@@ -231,6 +231,45 @@ Theorem C08_unix_floor : forall t, unix_floor t <= t < unix_floor t + SECOND.
 Proof. intros t. split; [apply unix_floor_le|apply unix_floor_gt]. Qed.
 Print Assumptions C08_unix_floor.
 
+(* ------------------------------------------------------------------ round 4: set-if-absent in BOTH tiers *)
+
+(* [ctc_store hm] / [ctc_get hm] / [ctc_run hm]: cacheCtl with the redis backend and, iff hm, a memory backend
+   (hm = true is the two-tier system of C08_tier_expiry: ctc_run true = ct_run).
+   A Store of an error response (rcode <> 0) is set-if-absent in both tiers: it leaves the memory tier exactly as it was
+   when that holds a node for the key (live, or expired and uncollected), and it leaves the redis tier exactly as it
+   was when that holds a live value for the key - in every state, for every configuration. *)
+Theorem C08_tier_negative_nx : forall hm mx st t eps k m pk,
+  negative m = true ->
+  let st1 := fst (ctc_store hm mx st t eps k (Some m) pk) in
+  (forall e, cp_find k (st_map (ct_mem st)) = Some e -> ct_mem st1 = ct_mem st) /\
+  (forall e, ct_rfind k (ct_red st) = Some e -> t + eps < re_dead e -> ct_red st1 = ct_red st).
+Proof. exact tier_negative_keeps. Qed.
+Print Assumptions C08_tier_negative_nx.
+
+(* ... at every step of EVERY history (stores, lookups with promotion, drops in either tier, foreign stores, ticks) *)
+Theorem C08_tier_negative_nx_history : forall hm mx evs st, ct_steps_sat (ct_neg_keeps hm mx) hm mx st evs.
+Proof. exact tier_negative_nx_history. Qed.
+Print Assumptions C08_tier_negative_nx_history.
+
+Theorem C08_tier_config_true : forall mx evs st, ctc_run true mx st evs = ct_run mx st evs.
+Proof. exact ctc_run_true. Qed.
+Print Assumptions C08_tier_config_true.
+
+(* redis-only configuration, as the client sees it: while redis holds a live answer for the key, storing an error
+   response for that key changes the result of no later lookup (of any key, at any time) *)
+Theorem C08_redis_only_error_invisible : forall mx st t eps k m pk e,
+  negative m = true -> ct_rfind k (ct_red st) = Some e -> t + eps < re_dead e ->
+  forall t2 k2, snd (ctc_get false (fst (ctc_store false mx st t eps k (Some m) pk)) t2 k2) = snd (ctc_get false st t2 k2).
+Proof. exact redis_only_error_invisible. Qed.
+Print Assumptions C08_redis_only_error_invisible.
+
+(* redis-only configuration, expiry: no clock assumption is needed (redis expires on the wall clock; the reported
+   expireTime is the true one cut to the whole second) *)
+Theorem C08_redis_only_expiry : forall mx clk0 evs t k st' m' s x,
+  ctc_get false (fst (ctc_run false mx (ct_init clk0) evs)) t k = (st', OHit m' s x) -> t < x + SECOND.
+Proof. exact redis_only_hit_before_expiry. Qed.
+Print Assumptions C08_redis_only_expiry.
+
 (* ------------------------------------------------------------------ never cached *)
 
 (* an absent (nil) or truncated response: Store returns before touching the backend, in every cp_state *)
@@ -384,3 +423,33 @@ Example C08_observation_past_expiry :
   has_expired 4294967293 (mkEntry 0 0 ex_nx true (otter_expiration 0 (-3 * SECOND - 1000))) = false /\
   has_expired 3 (mkEntry 0 0 ex_nx true (otter_expiration 3 (-3 * SECOND - 1000))) = true.
 Proof. vm_compute. repeat split. Qed.
+
+(* round 4, redis-only: a TTL-60 answer is stored at 1000.25 s; SERVFAIL, NXDOMAIN and REFUSED answers for the same key are
+   stored while it is alive (SET ... NX: refused); the positive answer keeps being served.  The same error stored as a
+   PLAIN SET (what another writer without NX does: CtForeign ... false) displaces it: set-if-absent is what protects. *)
+Definition ex_pos60 : msg := ex_msg 0 false [60]%N.
+Example C08_example_redis_negative :
+  map show (snd (ctc_run false H6 (ct_init 0)
+    [ CtStore (ms 1000250) 1000 1 (Some ex_pos60) true;
+      CtStore (ms 1000500) 1000 1 (Some (ex_msg 2 false [])) true;
+      CtStore (ms 1000600) 1000 1 (Some ex_nx) true;
+      CtStore (ms 1000700) 1000 1 (Some (ex_msg 5 false [7]%N)) true;
+      CtGet (ms 1002300) 1;
+      CtForeign (ms 1002400) (ms 1002400) (ms 1007400) 1 (ex_msg 5 false []) false;
+      CtGet (ms 1002900) 1 ])) =
+  [ [3; 60]; [3; 1]; [3; 30]; [3; 5]; [6; 1000000; 1060000; 58; 32768]; [0]; [6; 1002000; 1007000; 32768] ].
+Proof. vm_compute. reflexivity. Qed.
+
+(* OBSERVATION (memory + redis; not claimed either way by the per-tier theorems): when the memory copy of a live positive
+   answer has been lost (eviction) and an error response for the key is stored before the next lookup promoted the redis
+   copy again, the memory tier has no node for the key, so the error IS stored there, and lookups are served the error
+   from memory although redis still holds the live positive answer.  Reproduced on the real cacheCtl (docs/notes/C08.md,
+   round 4). *)
+Example C08_observation_cross_tier :
+  map show (snd (ctc_run true H6 (ct_init 0)
+    [ CtTick 1000; CtStore (ms 1000250) 1000 1 (Some ex_pos60) true;
+      CtDrop 1;
+      CtStore (ms 1000500) 1000 1 (Some (ex_msg 5 false [])) true;
+      CtGet (ms 1000900) 1 ])) =
+  [ [0]; [3; 60]; [1]; [3; 5]; [6; 1000500; 1005500; 32768] ].
+Proof. vm_compute. reflexivity. Qed.
